@@ -42,7 +42,14 @@ func main() {
 	keep := flag.Bool("keep", false, "always write the event log")
 	params := flag.String("p", "", "k=v,k=v")
 	watchdog := flag.Duration("watchdog", 120*time.Second, "wall-clock watchdog (inconclusive when it fires)")
+	storework := flag.String("storework", "", "child mode: run a storage workload (log|state|snap) under strace")
+	swDir := flag.String("dir", "", "storework: data directory")
+	swMarker := flag.String("marker", "", "storework: marker file")
+	swN := flag.Int("n", 10, "storework: number of operations")
 	flag.Parse()
+	if *storework != "" {
+		os.Exit(scen.StoreWork(*storework, *seed, *swDir, *swMarker, *swN))
+	}
 
 	P := scen.Params{}
 	for _, kv := range strings.Split(*params, ",") {
